@@ -136,13 +136,25 @@ partial def caseLoop {σ} (m : Mach σ) (lines : Array String) (i : Nat) (d : DS
         let (_, _, evs) := doOp m d Op.destroy
         IO.println (finish "end" evs)
         return i + 1
-    | ["cons", n] =>
-        match (if d.sched then none else n.toNat?) with
-        | some n =>
-            let (d', evs) := consume m d d.nextCons [] n
-            IO.println (finish "cons" evs)
-            caseLoop m lines (i+1) { d' with nextCons := d.nextCons + 1 }
-        | none => IO.println "bad-op"; caseLoop m lines (i+1) d
+    | [kw, n] =>
+        -- coroutine consumer / callback consumer: the same behaviour as far as the queue can tell
+        if (kw == "cons" || kw == "cbcons") && !d.sched then
+          match n.toNat? with
+          | some n =>
+              let (d', evs) := consume m d d.nextCons [] n
+              IO.println (finish kw evs)
+              caseLoop m lines (i+1) { d' with nextCons := d.nextCons + 1 }
+          | none => IO.println "bad-op"; caseLoop m lines (i+1) d
+        else
+          match parseOp ws with
+          | some op =>
+              let (d', r, evs) := doOp m d op
+              let head := match op with
+                | Op.deliver k => if d.sched then deliverHead m d.st k else "bad-op"
+                | _ => headOf d.sched op r
+              IO.println (finish head evs)
+              caseLoop m lines (i+1) d'
+          | none => IO.println "bad-op"; caseLoop m lines (i+1) d
     | _ =>
         match parseOp ws with
         | some op =>
